@@ -41,6 +41,12 @@ pub enum Ann {
     /// one packet carrying, in this order: a host record under .local, a record of another service under
     /// _tcp/_udp.local, the service PTR, peer j's records and peer i's records (deep suffix staircases)
     Combined(u8, u8),
+    /// peer i sends only part of its records (0: the TXT record, 1: the SRV records, 2: the address records),
+    /// as in an answer to a specific question
+    #[serde(alias = "Partial")]
+    Partial(u8, u8),
+    /// virtual time passes (1.001 s, 29.003 s or 100.007 s) on the discoverer's side
+    Age(u8),
 }
 
 #[derive(Debug, Clone, PartialEq, Eq, Hash, serde::Serialize, serde::Deserialize)]
@@ -104,6 +110,29 @@ fn summary_of_info(i: &InstanceInformation) -> Summary {
 
 fn summary_of_peer(p: &Peer) -> Summary {
     (p.ips.iter().map(|(v4, b)| ip_of(*v4, b)).collect(), p.ports.iter().copied().collect(), attr_map(p).into_iter().collect())
+}
+
+const AGES_MS: [u64; 3] = [1_001, 29_003, 100_007];
+
+/// what a set of a peer's records says: addresses from A / AAAA, ports from SRV, the peer's attributes if its TXT record is among them
+fn summary_of_records<'a>(recs: impl Iterator<Item = &'a ResourceRecord<'static>>, p: &Peer) -> Summary {
+    let mut s: Summary = Default::default();
+    for r in recs {
+        match &r.rdata {
+            RData::A(a) => {
+                s.0.insert(IpAddr::from(a.address.to_be_bytes()));
+            }
+            RData::AAAA(a) => {
+                s.0.insert(IpAddr::from(a.address.to_be_bytes()));
+            }
+            RData::SRV(srv) => {
+                s.1.insert(srv.port);
+            }
+            RData::TXT(_) => s.2 = attr_map(p).into_iter().collect(),
+            _ => {}
+        }
+    }
+    s
 }
 
 /// what an announcer puts on the wire for `info` under `owner` (mirrors ServiceDiscovery::announce)
@@ -197,7 +226,110 @@ fn check(d: &Disc, case: &mut Case) -> Result<(), Fail> {
     // expected: owner (full name text) -> (instance name or None for deeper names, summary)
     let mut expected: BTreeMap<String, (Option<String>, Summary)> = BTreeMap::new();
     let mut noise = 0;
+    // owner -> (instance name, peer index, record index -> virtual reception time in ms)
+    let mut seen: BTreeMap<String, (Option<String>, usize, BTreeMap<usize, u64>)> = BTreeMap::new();
+    let mut vnow: u64 = 0;
+    let mut timed = false;
     for ann in &d.seq {
+        // bookkeeping of receptions for the time-aware oracle
+        {
+            let mut all_of = |owner: String, name: Option<String>, pi: usize, seen: &mut BTreeMap<String, (Option<String>, usize, BTreeMap<usize, u64>)>| {
+                let n = RECORDS.with(|r| r.borrow().get(&owner).map(|v| v.len())).unwrap_or(0);
+                let e = seen.entry(owner).or_insert((name, pi, BTreeMap::new()));
+                for k in 0..n {
+                    e.2.insert(k, vnow);
+                }
+            };
+            match ann {
+                Ann::Peer(i) | Ann::PeerPlusForeign(i, _) => {
+                    let pi = *i as usize % d.peers.len();
+                    let p = &d.peers[pi];
+                    let owner = format!("{}.{}", p.name, service);
+                    let _ = announcement(info_of(p, &p.name), &owner, d.ttl)?;
+                    all_of(owner, Some(p.name.clone()), pi, &mut seen);
+                }
+                Ann::Combined(i, j) => {
+                    for x in [j, i] {
+                        let pi = *x as usize % d.peers.len();
+                        let p = &d.peers[pi];
+                        let owner = format!("{}.{}", p.name, service);
+                        let _ = announcement(info_of(p, &p.name), &owner, d.ttl)?;
+                        all_of(owner, Some(p.name.clone()), pi, &mut seen);
+                    }
+                }
+                Ann::Deeper(i) => {
+                    let pi = *i as usize % d.peers.len();
+                    let p = &d.peers[pi];
+                    let owner = format!("a.{}.{}", p.name, service);
+                    let _ = announcement(info_of(p, "a"), &owner, d.ttl)?;
+                    all_of(owner, None, pi, &mut seen);
+                }
+                Ann::Goodbye(i) => {
+                    let p = &d.peers[*i as usize % d.peers.len()];
+                    seen.remove(&format!("{}.{}", p.name, service));
+                }
+                _ => {}
+            }
+        }
+        if let Ann::Age(k) = ann {
+            let ms = AGES_MS[*k as usize % 3];
+            lib("verif_age", || store.verif_age(std::time::Duration::from_millis(ms)))?;
+            vnow += ms;
+            timed = true;
+            continue;
+        }
+        if let Ann::Partial(i, which) = ann {
+            let pi = *i as usize % d.peers.len();
+            let p = &d.peers[pi];
+            let owner = format!("{}.{}", p.name, service);
+            let _ = announcement(info_of(p, &p.name), &owner, d.ttl)?;
+            let recs = RECORDS.with(|r| r.borrow().get(&owner).cloned()).unwrap_or_default();
+            let pick: Vec<usize> = recs
+                .iter()
+                .enumerate()
+                .filter(|(_, r)| match which % 3 {
+                    0 => matches!(r.rdata, RData::TXT(_)),
+                    1 => matches!(r.rdata, RData::SRV(_)),
+                    _ => matches!(r.rdata, RData::A(_) | RData::AAAA(_)),
+                })
+                .map(|(k, _)| k)
+                .collect();
+            if pick.is_empty() {
+                continue;
+            }
+            timed = true;
+            case.class("partial-announcement");
+            let mut pk = Packet::new_reply(1);
+            for k in &pick {
+                let mut r = recs[*k].clone();
+                r.ttl = d.ttl;
+                pk.answers.push(r);
+            }
+            let e = seen.entry(owner).or_insert((Some(p.name.clone()), pi, BTreeMap::new()));
+            for k in &pick {
+                e.2.insert(*k, vnow);
+            }
+            let bytes = ser_compressed(&pk)?;
+            let packet = parse(&bytes)?.map_err(|e| Fail::new("c15:unparseable", format!("an announcement does not parse: {:?}", e)))?;
+            if d.use_async {
+                lib("add_response_to_resources (async)", || {
+                    rt.block_on(simple_mdns::verif::verif_add_response_to_resources_async(packet, &service_name, &own_full, &mut store, &mut achan))
+                })?;
+            } else {
+                lib("add_response_to_resources", || verif_add_response_to_resources(packet, &service_name, &own_full, &mut store, &mut chan))?;
+            }
+            if d.channel {
+                let mut msgs: Vec<InstanceInformation> = rx.try_iter().collect();
+                while let Ok(m) = arx.try_recv() {
+                    msgs.push(m);
+                }
+                let sum = summary_of_records(pick.iter().map(|k| &recs[*k]), p);
+                ensure!(msgs.len() == 1, "c15:channel-count", "{:?}: {} discovery messages delivered", ann, msgs.len());
+                ensure!(msgs[0].unescaped_instance_name() == p.name, "c15:channel-name", "{:?}: message names {:?}, announced {:?}", ann, msgs[0].unescaped_instance_name(), p.name);
+                ensure!(summary_of_info(&msgs[0]) == sum, "c15:channel-content", "{:?}: message {:?} differs from the records sent {:?}", ann, summary_of_info(&msgs[0]), sum);
+            }
+            continue;
+        }
         let (bytes, expect_msg): (Vec<u8>, Option<(Option<String>, Summary)>) = match ann {
             Ann::Peer(i) => {
                 let p = &d.peers[*i as usize % d.peers.len()];
@@ -276,6 +408,7 @@ fn check(d: &Disc, case: &mut Case) -> Result<(), Fail> {
                 expected.insert(owner.clone(), e.clone());
                 (announcement(info_of(p, "a"), &owner, d.ttl)?, Some(e))
             }
+            Ann::Partial(..) | Ann::Age(_) => continue,
         };
         let packet = parse(&bytes)?.map_err(|e| Fail::new("c15:unparseable", format!("an announcement does not parse: {:?}", e)))?;
         if d.use_async {
@@ -309,6 +442,36 @@ fn check(d: &Disc, case: &mut Case) -> Result<(), Fail> {
     let reported: Vec<InstanceInformation> = lib("get_known_services", || {
         store.get_domain_resources(&service_name, DomainResourceFilter::cached()).filter_map(|group| instance_from_records(&service_name, group)).collect()
     })?;
+    // with partial announcements or time in play, what must be reported follows from the receptions: a record counts
+    // while certainly younger than its TTL; a case with a record within half a second of its expiry makes no claim
+    if timed {
+        case.class("time-or-partial");
+        let ttl_ms = d.ttl as u64 * 1000;
+        let mut fresh: BTreeMap<String, (Option<String>, Summary)> = BTreeMap::new();
+        for (owner, (name, pi, recs_seen)) in &seen {
+            let recs = RECORDS.with(|r| r.borrow().get(owner).cloned()).unwrap_or_default();
+            let mut alive = Vec::new();
+            for (k, t) in recs_seen {
+                let age = vnow - t;
+                if age + 500 < ttl_ms {
+                    alive.push(*k);
+                } else if age <= ttl_ms + 500 {
+                    case.class("undetermined:at-expiry");
+                    return Ok(());
+                }
+            }
+            if alive.len() < recs_seen.len() {
+                case.class("some-records-expired");
+            }
+            if alive.is_empty() {
+                // nothing left of this owner: it is not reported at all
+                case.class("owner-expired");
+                continue;
+            }
+            fresh.insert(owner.clone(), (name.clone(), summary_of_records(alive.iter().map(|k| &recs[*k]), &d.peers[*pi])));
+        }
+        expected = fresh;
+    }
     let peers_announced = expected.values().filter(|e| e.0.is_some()).count();
     case.nontrivial = peers_announced >= 2 || noise >= 1 || expected.values().any(|(_, s)| s.0.len() >= 2 || s.1.len() >= 2);
     if noise > 0 {
@@ -362,7 +525,7 @@ fn attr_strategy() -> BoxedStrategy<Vec<(String, Option<String>)>> {
 
 fn strategy(_t: Tier) -> BoxedStrategy<Disc> {
     let many_ips = vec((any::<bool>(), vec(any::<u8>(), 16).prop_map(Bytes)), 18..40);
-    let many_ports = vec(any::<u16>(), 5..12);
+    let many_ports = vec(crate::gen::u16b(), 5..12);
     let big_peer = (many_ips, many_ports, attr_strategy());
     let peer = (
         vec(
@@ -400,6 +563,8 @@ fn strategy(_t: Tier) -> BoxedStrategy<Disc> {
         3 => (0u8..5, 0u8..12).prop_map(|(i, w)| Ann::PeerPlusForeign(i, w)),
         2 => (0u8..5).prop_map(Ann::Goodbye),
         2 => (0u8..5, 0u8..5).prop_map(|(i, j)| Ann::Combined(i, j)),
+        2 => (0u8..5, 0u8..3).prop_map(|(i, w)| Ann::Partial(i, w)),
+        2 => (0u8..3).prop_map(Ann::Age),
     ];
     (0u8..2, vec(prop_oneof![12 => peer.boxed(), 1 => big_peer.boxed()], 1..=5), vec(ann, 1..10), any::<bool>(), select(vec![60u32, 120, 4500]), any::<u8>(), proptest::bool::weighted(0.35))
         .prop_map(|(service, peers, seq, channel, ttl, rot, use_async)| {
@@ -444,7 +609,7 @@ fn check_escape(s: &String, case: &mut Case) -> Result<(), Fail> {
 pub fn def() -> CheckDef {
     CheckDef {
         id: "C15",
-        rule: "model-based: a watched service (_srv._tcp.local or _my._udp.local), a discoverer named 'self', 1..5 peers with distinct valid single-label names, 0..4 IPv4/IPv6 addresses, 0..4 ports and attribute lists (values absent / empty / non-empty), and sequences of 1..9 announcements: peers (repeated), the discoverer's own instance, PTR records owned by the service name, the peers' records under textually colliding foreign services (_srvx._tcp.local, x_srv._tcp.local, _srv._tcpx.local, _tcp.local) and under deeper names (a.<peer>.<service>), and peer announcements whose additional section also carries A/SRV/TXT records owned by names outside the service (a host name, another service's instance, the service name itself), goodbyes (TTL 0) after which the peer may advertise again, and combined packets (host record, other service, service PTR, two peers in one compressed message). One peer in thirteen has 18..39 addresses and 5..11 ports. Each announcement is assembled like ServiceDiscovery::announce (into_records, answers + address records as additionals) or, in a third of the cases, like a reply made by build_reply (address records in the additional section only), serialised with build_bytes_vec_compressed, parsed, ingested with the receive loop's add_response_to_resources — the sync one, or (35% of the cases) the async-tokio copy driven by a current-thread runtime — with and without an on_discovery channel, and read back exactly as get_known_services does. Oracle: every advertised peer is reported exactly once with exactly its name, address set, port set and attribute map; the number of reported instances equals the number of advertised strict-subdomain owners and each equals one owner's record set; nothing for the discoverer, the service name or foreign services; channel messages equal the instance just announced and none is delivered for records that must not be reported. Separately, unescape(escape(s)) == s for generated strings biased to '.' and '\\\\'. Non-trivial = >= 2 peers, a multi-member set, or noise present",
+        rule: "model-based: a watched service (_srv._tcp.local or _my._udp.local), a discoverer named 'self', 1..5 peers with distinct valid single-label names, 0..4 IPv4/IPv6 addresses, 0..4 ports and attribute lists (values absent / empty / non-empty), and sequences of 1..9 announcements: peers (repeated), the discoverer's own instance, PTR records owned by the service name, the peers' records under textually colliding foreign services (_srvx._tcp.local, x_srv._tcp.local, _srv._tcpx.local, _tcp.local) and under deeper names (a.<peer>.<service>), and peer announcements whose additional section also carries A/SRV/TXT records owned by names outside the service (a host name, another service's instance, the service name itself), goodbyes (TTL 0) after which the peer may advertise again, and combined packets (host record, other service, service PTR, two peers in one compressed message). One peer in thirteen has 18..39 addresses and 5..11 ports. Sequences also contain partial announcements (only the TXT record, only the SRV records or only the address records of a peer, as in an answer to a specific question) and steps of virtual time (1.001 s, 29.003 s, 100.007 s through the ageing hook, against TTLs of 60 / 120 / 4500 s): what must be reported is then derived from the receptions (a record counts while certainly younger than its TTL, an owner with no live record is not reported, a case with a record within 0.5 s of its expiry makes no claim). Each announcement is assembled like ServiceDiscovery::announce (into_records, answers + address records as additionals) or, in a third of the cases, like a reply made by build_reply (address records in the additional section only), serialised with build_bytes_vec_compressed, parsed, ingested with the receive loop's add_response_to_resources — the sync one, or (35% of the cases) the async-tokio copy driven by a current-thread runtime — with and without an on_discovery channel, and read back exactly as get_known_services does. Oracle: every advertised peer is reported exactly once with exactly its name, address set, port set and attribute map; the number of reported instances equals the number of advertised strict-subdomain owners and each equals one owner's record set; nothing for the discoverer, the service name or foreign services; channel messages equal the instance just announced and none is delivered for records that must not be reported. Separately, unescape(escape(s)) == s for generated strings biased to '.' and '\\\\'. Non-trivial = >= 2 peers, a multi-member set, or noise present",
         assumptions: vec![
             "driven through simple_mdns::verif (hook): ResourceRecordManager, add_response_to_resources of the sync service discovery, InstanceInformation::from_records",
             "for deeper names only the record sets are compared (the statement does not define their instance name)",
